@@ -11,7 +11,7 @@ GRAMMAR_OPS = ['+', '-', '*', '/', '&', '=', '<>', '<', '>', '<=', '>=']
 
 TOKEN_ALPHABET = [
     ' ', '  ', '\t', '\n', '"', "'", '"a"', "'b'", '""', 'SUM(', 'IF(', 'F0(', 'x.y(', '#N/A', '#DIV/0!',
-    '#REF!', '#X', '#', '$A$1', '$A1', 'A$1', 'A1', 'a1', 'ZZ99', 'AAAA1048577', 'v0', 'v1', 'u0', '_x', 'TRUE',
+    '#REF!', '#X', '#', '$A$1', '$A1', 'A$1', 'A1', 'a1', 'ZZ99', 'AAAA1048577', 'v0', 'v_0', 'v_1', 'u_0', '_x', 'TRUE',
     'FALSE', 'NULL', '0', '1', '12', '007', '{', '}', '&', '.', ':', ';', ',', '\\', '*', '/', '-', '+', '^',
     '(', ')', '<>', '>=', '<=', '>', '<', '!', '=', '%', 'é', '漢', '\x00', '\ud800', '😀', 'E', 'e5',
 ]
@@ -110,7 +110,8 @@ def g2_soup(rng):
 class Env(object):
     """Names a formula may use.  bound/unbound variables, custom functions (name->arity)."""
 
-    def __init__(self, variables=(), unbound=('u0', 'zz_top'), functions=None, cells=True, builtins=None):
+    def __init__(self, variables=(), unbound=('u_0', 'zz_top'), functions=None, cells=True, builtins=None, deny=()):
+        self.deny = frozenset(deny)    # reference kinds a formula must not contain: 'var','cell','range','fn'
         self.variables = list(variables)
         self.unbound = list(unbound)
         self.functions = dict(functions or {})
@@ -207,6 +208,16 @@ def gen_expr(rng, env, depth):
         k = rng.randrange(10)
     else:
         k = rng.randrange(22)
+    if env.deny:
+        deny = env.deny
+        if (k == 4 or k == 8) and 'var' in deny:
+            k = 0
+        elif k == 6 and 'cell' in deny:
+            k = 1
+        elif k == 7 and 'range' in deny:
+            k = 3
+        elif (k == 9 or k >= 16) and 'fn' in deny:
+            k = 12 if depth > 0 else 2
     if k <= 2:
         return number_literal(rng)
     if k == 3:
@@ -214,7 +225,7 @@ def gen_expr(rng, env, depth):
     if k == 4:
         if rng.random() < 0.7 and env.variables:
             return rng.choice(env.variables)
-        return rng.choice(['TRUE', 'FALSE', 'NULL'] + env.unbound)
+        return rng.choice(['TRUE', 'FALSE', 'NULL'] + env.unbound)  # note: TRUE/FALSE/NULL are variable references
     if k == 5:
         return rng.choice(V.ERR_CODES) if rng.random() < 0.5 else number_literal(rng)
     if k == 6:
